@@ -338,8 +338,8 @@ def r4_load_path(ctx, nf) -> None:
     rets = [t for g, o, t, n, e in paths if o == "return"]
     s = sym("self")
     want = mk_ctor("hugr.tys.ConstKind", {"ty": ("call", ".type_", (attr(s, "val"),), ())})
-    ctx.check(rets == [want], "C14.R4", "hugr.ops.Const.port_kind", cc.module.path, cc.methods["port_kind"].lineno,
-              "a Const node offers the type its value reports on its static port", cc.methods["port_kind"], expected=show(want), found="; ".join(show(t) for t in rets))
+    ctx.check(rets == [want], "C14.R4", "hugr.ops.Const.port_kind", cc.module.path, cc.find_method("port_kind")[1].lineno,
+              "a Const node offers the type its value reports on its static port", cc.find_method("port_kind")[1], expected=show(want), found="; ".join(show(t) for t in rets))
     ac = ctx.program.cls("hugr.build.dfg.DefinitionBuilder").methods.get("add_const")
     ok = ac is not None and any(u(x.func) == "ops.Const" and [u(a) for a in x.args] == [ac.args.args[1].arg] for x in calls_in(ac))
     ctx.check(bool(ok), "C14.R4", "hugr.build.dfg.DefinitionBuilder.add_const", df.module.path, ac.lineno if ac else 1, "add_const wraps exactly the given value", ac)
